@@ -51,7 +51,9 @@ pub(crate) fn fake_full_tx(
             Some(result)
         }
     };
-    let bootstraps = get_bootstraps(&tx_builder.inputs);
+    // one bootstrap witness per distinct Byron address, spent as a regular or as a collateral input
+    let mut bootstraps = get_bootstraps(&tx_builder.inputs);
+    bootstraps.extend(get_bootstraps(&tx_builder.collateral));
     let bootstrap_keys = match bootstraps.len() {
         0 => None,
         _x => {
